@@ -13,6 +13,10 @@ mod tp;
 mod util;
 mod viol;
 mod wl_core;
+mod wl_kinds;
+mod wl_life;
+mod wl_race;
+mod wl_seq;
 
 use arc_swap::strategy::test_strategies::FillFastSlots;
 use arc_swap::DefaultStrategy;
@@ -30,6 +34,10 @@ fn main() {
     sched::install();
     let code = match args.cmd.as_str() {
         "core" => cmd_core(&args),
+        "race" => cmd_race(&args),
+        "life" => cmd_life(&args),
+        "seq" => cmd_seq(&args),
+        "kinds" => cmd_kinds(&args),
         "selftest" => cmd_selftest(&args),
         other => {
             eprintln!("unknown workload '{}'", other);
@@ -154,6 +162,249 @@ fn cmd_core(a: &Args) -> i32 {
             runner::violation("C02", "leak", format!("{} tracked object(s) alive after everything was dropped (real allocation mode)", live), &json!({"workload": "core", "seed": seed, "shard": shard}));
         }
     }
+    0
+}
+
+/// Race-hunting workload (TSan / Miri / ASan): hb-silent, real allocation.
+/// Keys: shape=a|b|c|d, val=tp|arc, secs | execs, ops, seed, shard, intensity.
+fn cmd_race(a: &Args) -> i32 {
+    tp::set_alloc_mode(AllocMode::Real);
+    sched::set_mode(Mode::Free);
+    sched::set_free_intensity(a.u64("intensity", if cfg!(miri) { 40 } else { 24 }) as u32);
+    let seed = a.u64("seed", 1);
+    let shard = a.u64("shard", 0);
+    let secs = a.u64("secs", 0);
+    let execs = a.u64("execs", 1);
+    let val = a.str("val", "tp");
+    let shapes: Vec<String> = a.str("shape", "a").split(',').map(|s| s.to_string()).collect();
+    let ops = a.usize("ops", if cfg!(miri) { 10 } else { 20_000 });
+    runner::start_watchdog(a.u64("stall_s", 60));
+    let t0 = std::time::Instant::now();
+    let mut n = 0u64;
+    let mut total_loads = 0u64;
+    loop {
+        if secs > 0 {
+            if t0.elapsed().as_secs() >= secs {
+                break;
+            }
+        } else if n >= execs {
+            break;
+        }
+        let shape = &shapes[(n as usize + shard as usize) % shapes.len()];
+        let (readers, writers, hold, fill, handoff, conts) = match shape.as_str() {
+            // default strategy, short-lived guards: fast path, debt give-back vs. writer's walk
+            "a" => (2, 1, 0, false, false, 1),
+            // fallback-only strategy with two writers: helping hand-over
+            "b" => (2, 2, 1, true, false, 1),
+            // default strategy with more guards held than fast slots: fallback on the default strategy
+            "c" => (1, 1, 10, false, false, 1),
+            // compare-and-swap / rcu writers, full loads, guards handed to other threads, 2 containers
+            "d" => (2, 2, 2, false, true, 2),
+            // fallback-only, guards handed over, 2 containers
+            "e" => (2, 1, 3, true, true, 2),
+            other => panic!("unknown shape {}", other),
+        };
+        let scale = if cfg!(miri) { 1 } else { a.usize("scale", 2) };
+        let cfg = wl_race::RaceCfg {
+            readers: a.usize("readers", readers * scale),
+            writers: a.usize("writers", writers * if cfg!(miri) { 1 } else { scale.min(2) }),
+            ops,
+            hold,
+            seed: util::mix(seed.wrapping_mul(77), shard * 1_000_000 + n),
+            handoff,
+            conts,
+        };
+        runner::set_current(json!({"workload": "race", "shape": shape, "val": val, "seed": seed, "shard": shard, "n": n, "cfg": format!("{:?}", cfg)}));
+        let (loads, _reads) = match (val.as_str(), fill) {
+            ("tp", false) => wl_race::run::<Tp<1>, DefaultStrategy>(&cfg),
+            ("tp", true) => wl_race::run::<Tp<1>, FillFastSlots>(&cfg),
+            ("tpopt", false) => wl_race::run::<Option<Tp<1>>, DefaultStrategy>(&cfg),
+            ("tpopt", true) => wl_race::run::<Option<Tp<1>>, FillFastSlots>(&cfg),
+            ("arc", false) => wl_race::run::<Option<std::sync::Arc<Payload>>, DefaultStrategy>(&cfg),
+            ("arc", true) => wl_race::run::<Option<std::sync::Arc<Payload>>, FillFastSlots>(&cfg),
+            _ => panic!("val=tp|tpopt|arc"),
+        };
+        total_loads += loads;
+        n += 1;
+        runner::with(|r| {
+            r.execs += 1;
+            r.ops += loads;
+        });
+        runner::count(&format!("race.shape.{}", shape), 1);
+        let (_n, _occ, problems) = exec::node_invariants(true);
+        for pb in problems {
+            runner::violation("C02", "node-not-quiescent", pb, &json!({"workload": "race", "shape": shape, "seed": seed, "shard": shard}));
+        }
+    }
+    let _ = total_loads;
+    let live = if val == "arc" { tp::ARC_LIVE.load(std::sync::atomic::Ordering::Relaxed) } else { tp::LIVE_OBJS.load(std::sync::atomic::Ordering::Relaxed) };
+    if live != 0 {
+        runner::violation("C02", "leak", format!("{} value(s) alive after everything was dropped", live), &json!({"workload": "race", "seed": seed, "shard": shard}));
+    }
+    0
+}
+
+/// Thread-lifecycle workload (C10, C11). Keys as for `core`.
+fn cmd_life(a: &Args) -> i32 {
+    let p = wl_core::profile(&a.str("profile", "c10"));
+    let mode = match a.str("mode", "token").as_str() {
+        "token" => Mode::Token,
+        "free" => Mode::Free,
+        _ => panic!("mode=token|free"),
+    };
+    let alloc = parse_alloc(&a.str("alloc", "quarantine"));
+    tp::set_alloc_mode(alloc);
+    sched::set_mode(mode);
+    sched::set_free_intensity(a.u64("intensity", 24) as u32);
+    let execs = a.u64("execs", 500);
+    let secs = a.u64("secs", 0);
+    let seed = a.u64("seed", 1);
+    let shard = a.u64("shard", 0);
+    let val = a.str("val", "tp");
+    let strat = a.str("strat", "both");
+    let budget = a.u64("budget", 100_000) as u32;
+    let replay_exec = a.get("replay_exec").map(|s| s.parse::<u64>().unwrap());
+    runner::start_watchdog(a.u64("stall_s", 30));
+    let t0 = std::time::Instant::now();
+    let mut n = 0u64;
+    let mut hashes = std::collections::HashSet::new();
+    loop {
+        if secs > 0 {
+            if t0.elapsed().as_secs() >= secs {
+                break;
+            }
+        } else if n >= execs {
+            break;
+        }
+        let exec_no = shard * 10_000_000 + n + 1;
+        let wseed = util::mix(seed.wrapping_mul(0x2000_0003), exec_no);
+        let sseed = util::mix(wseed, 0x5EED);
+        let cfg = wl_life::LifeCfg { exec_no, wseed, sseed, mode, record: replay_exec == Some(exec_no) || a.flag("record"), step_budget: budget };
+        let use_fill = match strat.as_str() {
+            "default" => false,
+            "fill" => true,
+            _ => exec_no % 2 == 0,
+        };
+        let o = match (val.as_str(), use_fill) {
+            ("tp", false) => wl_life::run_life::<Option<Tp<1>>, DefaultStrategy>(&p, &cfg),
+            ("tp", true) => wl_life::run_life::<Option<Tp<1>>, FillFastSlots>(&p, &cfg),
+            ("arc", false) => wl_life::run_life::<Option<std::sync::Arc<Payload>>, DefaultStrategy>(&p, &cfg),
+            ("arc", true) => wl_life::run_life::<Option<std::sync::Arc<Payload>>, FillFastSlots>(&p, &cfg),
+            _ => panic!("val=tp|arc"),
+        };
+        n += 1;
+        runner::with(|r| {
+            r.execs += 1;
+            r.ops += o.ops as u64;
+            r.distinct.insert(o.trace_hash);
+        });
+        runner::count("steps", o.steps);
+        if o.nontrivial {
+            runner::count("execs.nontrivial", 1);
+            hashes.insert(o.trace_hash);
+        }
+        if replay_exec == Some(exec_no) {
+            break;
+        }
+        if replay_exec.is_none() && runner::with(|r| r.violations.len()) >= 5 {
+            break;
+        }
+    }
+    runner::count("distinct_nontrivial", hashes.len() as u64);
+    if hashes.len() <= 40_000 {
+        let hs: Vec<String> = hashes.iter().map(|h| format!("{:x}", h)).collect();
+        runner::with(|r| {
+            r.extra.insert("hashes".into(), json!(hs));
+        });
+    }
+    if val == "arc" {
+        let live = tp::ARC_LIVE.load(std::sync::atomic::Ordering::Relaxed);
+        if live != 0 {
+            runner::violation("C02", "arc-leak", format!("{} Arc payload(s) alive after everything was dropped", live), &json!({"workload": "life", "seed": seed, "shard": shard}));
+        }
+    }
+    if alloc == AllocMode::Real && val == "tp" {
+        let live = tp::LIVE_OBJS.load(std::sync::atomic::Ordering::Relaxed);
+        if live != 0 {
+            runner::violation("C02", "leak", format!("{} tracked object(s) alive after everything was dropped", live), &json!({"workload": "life", "seed": seed, "shard": shard}));
+        }
+    }
+    0
+}
+
+/// Sequential programs against the reference model under all three strategies (C14).
+fn cmd_seq(a: &Args) -> i32 {
+    let progs = a.u64("progs", 1000);
+    let len = a.usize("len", 80);
+    let seed = a.u64("seed", 1);
+    let shard = a.u64("shard", 0);
+    let val = a.str("val", "tp");
+    tp::set_alloc_mode(if val == "tp" { parse_alloc(&a.str("alloc", "quarantine")) } else { AllocMode::Real });
+    sched::set_mode(Mode::Off);
+    let mut distinct = std::collections::HashSet::new();
+    let mut steps = 0u64;
+    for n in 0..progs {
+        let pseed = util::mix(seed.wrapping_mul(0x3000_0005), shard * 10_000_000 + n);
+        let l = 10 + (pseed % (len as u64 - 9)) as usize;
+        let outs = if val == "tp" {
+            let ledger = tp::alloc_mode() != AllocMode::Real;
+            [
+                wl_seq::run_program::<Option<Tp<1>>, DefaultStrategy>(pseed, l, ledger),
+                wl_seq::run_program::<Option<Tp<1>>, FillFastSlots>(pseed, l, ledger),
+                wl_seq::run_program::<Option<Tp<1>>, std::sync::RwLock<()>>(pseed, l, ledger),
+            ]
+        } else {
+            [
+                wl_seq::run_program::<Option<std::sync::Arc<Payload>>, DefaultStrategy>(pseed, l, false),
+                wl_seq::run_program::<Option<std::sync::Arc<Payload>>, FillFastSlots>(pseed, l, false),
+                wl_seq::run_program::<Option<std::sync::Arc<Payload>>, std::sync::RwLock<()>>(pseed, l, false),
+            ]
+        };
+        let failed = outs.iter().any(|o| o.failed);
+        if !failed && !(outs[0].hash == outs[1].hash && outs[1].hash == outs[2].hash) {
+            runner::violation("C14", "strategies-disagree", format!("program seed {}: result hashes {:x} {:x} {:x} (default, fallback-only, rwlock)", pseed, outs[0].hash, outs[1].hash, outs[2].hash), &json!({"workload": "seq", "seed": pseed}));
+        }
+        steps += outs[0].steps as u64;
+        if outs[0].steps >= 10 {
+            distinct.insert(outs[0].hash ^ (outs[0].steps as u64) << 48);
+        }
+        runner::with(|r| {
+            r.execs += 3;
+            r.ops += outs.iter().map(|o| o.steps as u64).sum::<u64>();
+        });
+        if failed && runner::with(|r| r.violations.len()) >= 5 {
+            break;
+        }
+    }
+    runner::count("seq.programs", progs);
+    runner::count("seq.steps_per_strategy", steps);
+    runner::count("distinct_nontrivial", distinct.len() as u64);
+    if val != "tp" {
+        let live = tp::ARC_LIVE.load(std::sync::atomic::Ordering::Relaxed);
+        if live != 0 {
+            runner::violation("C02", "arc-leak", format!("{} Arc payload(s) alive after all sequential programs", live), &json!({"workload": "seq"}));
+        }
+    } else if tp::alloc_mode() == AllocMode::Real {
+        let live = tp::LIVE_OBJS.load(std::sync::atomic::Ordering::Relaxed);
+        if live != 0 {
+            runner::violation("C02", "leak", format!("{} tracked object(s) alive after all sequential programs", live), &json!({"workload": "seq"}));
+        }
+    }
+    0
+}
+
+/// Pointer-kind law grid (C15).
+fn cmd_kinds(_a: &Args) -> i32 {
+    sched::set_mode(Mode::Off);
+    let (cells, checks) = wl_kinds::run_grid();
+    runner::with(|r| {
+        r.execs = cells;
+        r.ops = checks;
+    });
+    runner::count("kinds.cells", cells);
+    runner::count("kinds.law_checks", checks);
+    let d = runner::with(|r| r.distinct.len() as u64);
+    runner::count("distinct_nontrivial", d);
     0
 }
 
